@@ -574,6 +574,38 @@ Section Unique.
   Qed.
 End Unique.
 
+(* ------------------------------------------------------------------ the property's first clause for the
+   translated encoder: whatever function the Go source of internalMarshal defines (any solution of the
+   translated equation) followed by the model's decoder restores every value it accepts *)
+From Eino Require Proofs.Ser.
+Theorem translated_encoder_roundtrips :
+  forall (J JK : Type) (jenc : base -> lit -> res J) (jdec : base -> J -> res lit)
+         (kenc : base -> lit -> res JK) (kdec : base -> JK -> res lit) (reg : registry) (env : senv)
+         (json_roundtrip : forall b l j,
+             lit_in_base b l = true -> jsafe l = true -> jenc b l = Ok j -> jdec b j = Ok l)
+         (key_roundtrip : forall b l j,
+             lit_in_base b l = true -> jsafe l = true -> kenc b l = Ok j -> kdec b j = Ok l)
+         (registry_names_unique : NoDup (map fst reg))
+         (registry_names_nonempty : names_nonempty reg = true)
+         (field_names_unique : forall n ds, struct_fields env n = Some ds -> NoDup (map fst ds))
+         (f : val -> res (option (gis J JK))),
+    (forall v, wt env v = true -> f v = Gen.SerCode.internalMarshal J JK jenc kenc reg env f v) ->
+    forall v og,
+      wt env v = true -> is_iface (ty_of v) = false -> Proofs.Ser.safe v -> Proofs.Ser.defs_ok reg v ->
+      f v = Ok og ->
+      exists oi v', og = option_map to_gis oi /\
+                    unmarshal J JK jdec kdec fixed reg env oi = Ok v' /\ v' ≅ v /\ dyn_ty v' = dyn_ty v.
+Proof.
+  intros J JK jenc jdec kenc kdec reg env jrt krt Hnd Hne Hfn f Hf v og Hwt Hi Hs Hd Hfv.
+  rewrite (gen_internalMarshal_unique J JK jenc kenc reg env Hne f Hf v Hwt) in Hfv.
+  unfold to_gis_res in Hfv.
+  destruct (enc_at J JK jenc kenc fixed reg 0 v) as [oi|e|] eqn:E; simpl in Hfv; try discriminate Hfv.
+  inversion Hfv; subst og. exists oi.
+  destruct (Proofs.Ser.enc_dec_roundtrip_lemma J JK jenc jdec kenc kdec reg env jrt krt Hnd Hfn v oi Hwt Hi Hs Hd E)
+    as [v' [H1 [H2 H3]]].
+  exists v'. auto.
+Qed.
+
 (* ------------------------------------------------------------------ definedContainerKey *)
 Theorem gen_definedContainerKey_agrees : forall J JK jenc kenc reg env rt,
   Gen.SerCode.definedContainerKey J JK jenc kenc reg env rt
@@ -619,8 +651,8 @@ Proof.
   induction n; simpl; [reflexivity|]. now rewrite IHn.
 Qed.
 (* ContainerType is "" when the encoder recorded none *)
-Theorem gen_containerType_agrees : forall J JK jenc kenc reg env (v : gis J JK) t,
-  Gen.SerCode.containerType J JK jenc kenc reg env v t
+Theorem gen_containerType_agrees : forall J JK reg (v : gis J JK) t,
+  Gen.SerCode.containerType J JK reg v t
   = container_ty reg (if String.eqb (ContainerType v) EmptyString then None else Some (ContainerType v)) t.
 Proof.
   intros. unfold Gen.SerCode.containerType. try unfold Model.SerCodeRef.containerType.
@@ -630,9 +662,56 @@ Proof.
   destruct (assignable_to t t0); reflexivity.
 Qed.
 
+(* ------------------------------------------------------------------ the registration tables and the
+   record declarations.  [go_ty] reads a Go type as written in the source as a type of the model's
+   universe; the struct / interface / named-type numbers are those of Model/SerCheckpoint.v. *)
+From Eino Require Import Model.SerCheckpoint.
+Local Open Scope string_scope.
+Definition go_base : list (string * ty) :=
+  [ ("int", TBase BInt); ("int8", TBase BInt8); ("int16", TBase BInt16); ("int32", TBase BInt32);
+    ("int64", TBase BInt64); ("uint", TBase BUint); ("uint8", TBase BUint8); ("uint16", TBase BUint16);
+    ("uint32", TBase BUint32); ("uint64", TBase BUint64); ("float32", TBase BFloat32);
+    ("float64", TBase BFloat64); ("complex64", TBase BComplex64); ("complex128", TBase BComplex128);
+    ("uintptr", TBase BUintptr); ("bool", TBase BBool); ("string", TBase BString); ("any", TAny) ].
+Definition go_compose : list (string * ty) :=
+  [ ("nilChunk", TStruct S_NILCHUNK); ("channel", TIface I_CHANNEL); ("checkpoint", TStruct S_CHECKPOINT);
+    ("dagChannel", TStruct S_DAG); ("pregelChannel", TStruct S_PREGEL);
+    ("dependencyState", TNamed N_DEPSTATE BUint8);
+    ("map[string]channel", TMap t_string (TIface I_CHANNEL)); ("map[string]any", TMap t_string TAny);
+    ("map[string]bool", TMap t_string (TBase BBool)); ("map[string]*checkpoint", TMap t_string t_checkpoint_ptr);
+    ("map[string]dependencyState", TMap t_string (TNamed N_DEPSTATE BUint8)) ].
+Definition go_ty (s : string) : option ty := alist_get s (go_compose ++ go_base)%list.
+Definition tr_table (l : list (string * string)) : list (string * ty) :=
+  flat_map (fun e => match go_ty (snd e) with Some t => [(fst e, t)] | None => [] end) l.
+Definition all_known (l : list (string * string)) : bool := forallb (fun e => opt_some (go_ty (snd e))) l.
+(* the struct types of package schema are ordinary registered structs outside the model's sample
+   universe; anything else that init() registers must be a type the model's registry has *)
+Definition is_schema (s : string) : bool := String.eqb (String.substring 0 7 s) "schema.".
+
+Theorem gen_init_serialization_agrees :
+  tr_table Gen.SerCode.init_serialization = builtin_registry
+  /\ forallb (fun e => opt_some (go_ty (snd e)) || is_schema (snd e)) Gen.SerCode.init_serialization = true.
+Proof. split; vm_compute; reflexivity. Qed.
+
+Theorem gen_init_compose_agrees :
+  tr_table Gen.SerCode.init_compose = ckpt_registry /\ all_known Gen.SerCode.init_compose = true.
+Proof. split; vm_compute; reflexivity. Qed.
+
+(* the declarations of the record types, as the struct environment of the model *)
+Definition tr_records (l : list (string * list (string * string))) : list (option (N * list (string * option ty))) :=
+  map (fun d => match go_ty (fst d) with
+                | Some (TStruct n) => Some (n, map (fun f => (fst f, go_ty (snd f))) (snd d))
+                | _ => None
+                end) l.
+Theorem gen_compose_records_agree :
+  tr_records Gen.SerCode.compose_records
+  = map (fun d => Some (fst d, map (fun f => (fst f, Some (snd f))) (snd d))) ckpt_env
+  /\ go_ty Gen.SerCode.dependencyState_underlying = Some (TBase BUint8).
+Proof. split; vm_compute; reflexivity. Qed.
+Local Close Scope string_scope.
+
 (* ------------------------------------------------------------------ non-vacuity: the translated
    functions run.  The recursion is closed with fuel (a distinguished error when it runs out). *)
-From Eino Require Import Model.SerCheckpoint.
 Fixpoint gen_marshal_fuel (n : nat) (reg : registry) (env : senv) (v : val) : res (option (gis lit lit)) :=
   match n with
   | O => Err 90%N
